@@ -36,6 +36,7 @@ import (
 	"os"
 	"sort"
 	"strings"
+	"unicode"
 
 	"golang.org/x/tools/go/ssa"
 )
@@ -698,6 +699,10 @@ func stateRules(c *Ctx) {
 		runeNarrowed(c, g, short1)
 		byteWidened(c, g, short1)
 		strictLetterRange(c, g, short1)
+		cutsetAsPrefix(c, g, short1)
+		smallTableByByte(c, g, short1)
+		uncheckedErrorAssert(c, g, short1)
+		scratchReturned(c, g, short1)
 		indexSummed(c, g, short1)
 	}
 	// parsers that link features to a local Sequence (shared by C01, C14, C15)
@@ -1950,6 +1955,7 @@ func unflushedWriter(c *Ctx, g *ssa.Function, short1 string) {
 			return
 		}
 		flushed, escapes, writes := false, false, 0
+		escapesModule, stdHolders := false, 0
 		seen := map[ssa.Value]bool{}
 		var follow func(v ssa.Value)
 		follow = func(v ssa.Value) {
@@ -1993,16 +1999,22 @@ func unflushedWriter(c *Ctx, g *ssa.Function, short1 string) {
 						writes++
 					default:
 						escapes = true // another function holds it now: it may flush
+						if f := cm.StaticCallee(); f != nil && !inModule(f) && !cm.IsInvoke() {
+							stdHolders++ // a library encoder or writer wrapped around it: writes through it, never flushes it
+						} else {
+							escapesModule = true
+						}
 					}
 				default:
 					escapes = true // stored, merged, returned, captured
+					escapesModule = true
 				}
 			}
 		}
 		follow(mk)
 		// flushed by a deferred call that was registered BEFORE the deferred Close of what it writes to: deferred
 		// calls run last-in-first-out, so the file is closed first and the flush fails silently
-		if !escapes && writes > 0 && len(mk.Call.Args) > 0 {
+		if !escapesModule && writes+stdHolders > 0 && len(mk.Call.Args) > 0 {
 			under := unwrapIface(mk.Call.Args[0])
 			var dFlush, dClose *ssa.Defer
 			plainFlush := false
@@ -3000,6 +3012,33 @@ func swappedArguments(c *Ctx, g *ssa.Function, short1 string) {
 		args := ci.Common().Args
 		if len(args) != len(callee.Params) {
 			return
+		}
+		// f(a, b) = not f(b, a), taken when a and b stand in the wrong order: a self-call whose exchanged
+		// parameters are compared with each other on the way is a deliberate exchange (an ordering made canonical)
+		if callee == g {
+			idx := map[*ssa.Parameter]int{}
+			for k, p := range g.Params {
+				idx[p] = k
+			}
+			tbS := newTB(g)
+			tbS.NoInline = true
+			atoms := pathCond(tbS, g.Blocks[0], i.Block()).atoms()
+			for a := 0; a < len(args); a++ {
+				pa, okA := unwrap(args[a]).(*ssa.Parameter)
+				if !okA || pa.Parent() != g || idx[pa] == a {
+					continue
+				}
+				b := idx[pa]
+				if pb, okB := unwrap(args[b]).(*ssa.Parameter); !okB || idx[pb] != a {
+					continue
+				}
+				for _, at := range atoms {
+					as := at.Atom.String()
+					if strings.Contains(as, fmt.Sprintf("param[%d]", a)) && strings.Contains(as, fmt.Sprintf("param[%d]", b)) {
+						return
+					}
+				}
+			}
 		}
 		for a := 0; a < len(args); a++ {
 			pa, okA := unwrap(args[a]).(*ssa.Parameter)
@@ -4321,6 +4360,234 @@ func strictLetterRange(c *Ctx, g *ssa.Function, short1 string) {
 				c.bad("STATE", "strict-letter-range:"+short1, lo.at, fmt.Sprintf("%s tests a letter for the range %q..%q with a strict comparison at the end: %s stays outside the range and is not treated like the other letters", short1, rune(lo.k), rune(hi.k), strings.Join(left, " and ")))
 				return
 			}
+		}
+	}
+}
+
+// cutsetAsPrefix: strings.Trim / TrimLeft / TrimRight take a SET of characters, not a text: with a constant that
+// reads like a text ("sdm-", "ss-DNA": several letters next to punctuation, or a character twice) every run of
+// those characters goes, so a value that merely begins with some of them loses more than the prefix meant
+// ("mRNA" trimmed with "sdm-" is "RNA").
+func cutsetAsPrefix(c *Ctx, g *ssa.Function, short1 string) {
+	tb := newTB(g)
+	eachInstr(g, func(i ssa.Instruction) {
+		ci, ok := i.(ssa.CallInstruction)
+		if !ok {
+			return
+		}
+		n := calleeName(ci)
+		switch n {
+		case "strings.Trim", "strings.TrimLeft", "strings.TrimRight", "bytes.Trim", "bytes.TrimLeft", "bytes.TrimRight":
+		default:
+			return
+		}
+		as := ci.Common().Args
+		if len(as) != 2 {
+			return
+		}
+		cut, isC := normText(tb.T(as[1])).constStr()
+		if !isC {
+			return
+		}
+		if d, _ := dependsOnArgs(tb.T(as[0])); !d {
+			return
+		}
+		letters, punct, dup := map[rune]bool{}, 0, false
+		seen := map[rune]bool{}
+		for _, r := range cut {
+			if seen[r] {
+				dup = true
+			}
+			seen[r] = true
+			switch {
+			case unicode.IsLetter(r):
+				letters[unicode.ToLower(r)] = true
+			case unicode.IsDigit(r), unicode.IsSpace(r), r == '"', r == '\'':
+			default:
+				punct++
+			}
+		}
+		if !(dup && len(letters) >= 1) && !(len(letters) >= 2 && punct >= 1 && len(cut) <= 5) { // (a long list with a sign in it is an alphabet)
+			return
+		}
+		// "is anything left after the letters of this set are gone?" is a membership test, not a cut
+		if v, isV := i.(ssa.Value); isV && v.Referrers() != nil {
+			onlyTested := len(*v.Referrers()) > 0
+			for _, r := range *v.Referrers() {
+				switch x := r.(type) {
+				case *ssa.DebugRef:
+				case *ssa.BinOp:
+					if x.Op != token.EQL && x.Op != token.NEQ {
+						onlyTested = false
+					}
+				case *ssa.Call:
+					if b, isB := x.Call.Value.(*ssa.Builtin); !isB || b.Name() != "len" {
+						onlyTested = false
+					}
+				default:
+					onlyTested = false
+				}
+			}
+			if onlyTested {
+				return
+			}
+		}
+		c.bad("STATE", "cutset-as-prefix:"+short1, i.Pos(), fmt.Sprintf("%s calls %s with the cutset %q, which reads like a text to take off: the function removes every leading/trailing character that occurs in the set, so a value that merely begins (or ends) with some of those letters loses them too", short1, n, cut))
+	})
+}
+
+// smallTableByByte: a local or package-level array of fewer than 256 elements is indexed by a byte of an
+// argument text with no test of that byte on the way: any byte beyond the array (0x80.. for a [128] table) is a
+// run-time panic instead of an answer.
+func smallTableByByte(c *Ctx, g *ssa.Function, short1 string) {
+	tb := newTB(g)
+	eachInstr(g, func(i ssa.Instruction) {
+		ia, ok := i.(*ssa.IndexAddr)
+		if !ok {
+			return
+		}
+		pt, isP := ia.X.Type().Underlying().(*types.Pointer)
+		if !isP {
+			return
+		}
+		arr, isA := pt.Elem().Underlying().(*types.Array)
+		if !isA || arr.Len() >= 256 || arr.Len() < 2 {
+			return
+		}
+		ix := ia.Index
+		if cv, isCv := ix.(*ssa.Convert); isCv {
+			ix = cv.X
+		}
+		bt, isB := ix.Type().Underlying().(*types.Basic)
+		if !isB || bt.Kind() != types.Uint8 {
+			return
+		}
+		var text ssa.Value
+		switch x := ix.(type) {
+		case *ssa.Index:
+			text = x.X
+		case *ssa.UnOp:
+			if a, isIA := x.X.(*ssa.IndexAddr); isIA && x.Op == token.MUL {
+				text = a.X
+			}
+		}
+		for depth := 0; text != nil && depth < 6; depth++ {
+			sl, isSl := text.(*ssa.Slice)
+			if !isSl {
+				break
+			}
+			text = sl.X
+		}
+		if text == nil || !isTextType(text.Type()) {
+			return
+		}
+		if d, _ := dependsOnArgs(tb.T(text)); !d {
+			return
+		}
+		byteT := tb.T(ix).String()
+		for _, a := range pathCond(tb, g.Blocks[0], ia.Block()).atoms() {
+			if strings.Contains(a.Atom.String(), byteT) {
+				return // something was asked about the byte first
+			}
+		}
+		c.bad("STATE", "small-table-by-byte:"+short1, ia.Pos(), fmt.Sprintf("%s indexes a table of %d elements with a byte of its text argument and asks nothing about that byte first: a byte of %d or more (any non-ASCII letter) is a run-time panic, index out of range, where the function has an answer to give", short1, arr.Len(), arr.Len()))
+	})
+}
+
+// uncheckedErrorAssert: an error that came back from a call is asserted to one concrete type without the
+// comma-ok form, on a path where only its being non-nil was asked: an error of any other type is a panic.
+func uncheckedErrorAssert(c *Ctx, g *ssa.Function, short1 string) {
+	tb := newTB(g)
+	tb.NoInline = true
+	eachInstr(g, func(i ssa.Instruction) {
+		ta, ok := i.(*ssa.TypeAssert)
+		if !ok || ta.CommaOk {
+			return
+		}
+		if tname(ta.X.Type()) != "error" {
+			return
+		}
+		if _, isIface := ta.AssertedType.Underlying().(*types.Interface); isIface {
+			return
+		}
+		ex, isEx := ta.X.(*ssa.Extract)
+		if !isEx {
+			return
+		}
+		if _, isCall := ex.Tuple.(*ssa.Call); !isCall {
+			return
+		}
+		errT := tb.T(ta.X).String()
+		for _, a := range pathCond(tb, g.Blocks[0], ta.Block()).atoms() {
+			as := a.Atom.String()
+			if !strings.Contains(as, errT) {
+				continue
+			}
+			if a.Atom.isBin("==") || a.Atom.isBin("!=") {
+				continue // compared with nil or with one particular error value (io.EOF): says nothing about its type
+			}
+			return // its type was asked about in some other way
+		}
+		c.bad("STATE", "unchecked-error-assert:"+short1, ta.Pos(), fmt.Sprintf("%s asserts the error returned by %s to be a %s without the comma-ok form, having asked only whether it is nil: an error of any other type (a read failure of the underlying stream, say) makes the function panic instead of reporting it", short1, short(tb.T(ex.Tuple).String()), tname(ta.AssertedType)))
+	})
+}
+
+// scratchReturned: g fills a package-level map or list with data computed from its arguments and hands that
+// very container back: whatever lock g holds while filling is released when it returns, and the caller reads
+// memory the next call (on another goroutine, or simply later) writes again.
+func scratchReturned(c *Ctx, g *ssa.Function, short1 string) {
+	if g.Signature.Results().Len() == 0 {
+		return
+	}
+	tb := newTB(g)
+	written := map[*ssa.Global]bool{}
+	eachInstr(g, func(i ssa.Instruction) {
+		switch x := i.(type) {
+		case *ssa.MapUpdate:
+			if gl := globalRoot(x.Map); gl != nil {
+				if tb.T(x.Key).Op != "const" || tb.T(x.Value).Op != "const" { // computed at run time from something other than constants
+					written[gl] = true
+				}
+			}
+		case *ssa.Store:
+			if ia, isIA := x.Addr.(*ssa.IndexAddr); isIA {
+				if gl := globalRoot(ia.X); gl != nil {
+					if d, _ := dependsOnArgs(tb.T(x.Val)); d {
+						written[gl] = true
+					}
+				}
+			}
+		}
+	})
+	if len(written) == 0 {
+		return
+	}
+	for _, r := range returnsOf(g) {
+		for _, res := range r.Results {
+			switch res.Type().Underlying().(type) {
+			case *types.Map, *types.Slice:
+			default:
+				continue
+			}
+			// (read through the term: with a deferred call in g the result is spilled to a cell first)
+			t := tb.T(res)
+			for t != nil && t.Op == "field" && len(t.Args) == 1 {
+				t = t.Args[0]
+			}
+			if t == nil || t.Op != "global" {
+				continue
+			}
+			var gl *ssa.Global
+			for w := range written {
+				if strings.HasSuffix(t.Name, "."+w.Name()) {
+					gl = w
+				}
+			}
+			if gl == nil {
+				continue
+			}
+			c.bad("STATE", "scratch-returned:"+short1+"->"+gl.Name(), r.Pos(), fmt.Sprintf("%s fills package-level %s with data computed from its arguments and returns that very container: any lock it holds while filling is gone when it returns, so its caller reads memory that the next call writes again (two overlapping calls get each other's numbers)", short1, gl.Name()))
+			return
 		}
 	}
 }
